@@ -134,6 +134,15 @@ pub fn prog(data: &[u8]) -> Result<(), String> {
             if v.pc == stop {
                 return Ctl::Stop;
             }
+            // a MES write call of megabytes (length word = whatever the stream left in memory) is a legitimate
+            // request, but copying it per input exhausts the fuzzing engine's memory limit: streams end before it
+            if (v.peek)(v.pc) == Some(0x57) && (v.peek)(v.pc.wrapping_add(1)) == Some(0x00) && v.er[0] == 104 {
+                let a = v.er[1].wrapping_add(8);
+                let len = (0..4).fold(0u32, |acc, i| (acc << 8) | (v.peek)(a.wrapping_add(i) & 0xff_ffff).unwrap_or(0xff) as u32);
+                if len > 0x4000 {
+                    return Ctl::Stop;
+                }
+            }
             Ctl::Step
         });
         if let Some(p) = out.panic {
